@@ -40,7 +40,9 @@ TECHNIQUE = "runtime monitoring: three-zone oracle from a spec-derived RFC 9112 
 RULE = ("enumerated: every Content-Length x Transfer-Encoding spelling pair (both orders), CL x CL, TE x TE, each alone; every "
         "byte value at every position of a short method and target; chunk-size lines (hostile spellings, every byte value "
         "inside an extension) in first/second chunk; every line end of a request replaced by LF / CR / LFCR / CRCRLF; all "
-        "HTTP/x.y; then random pipelines from the refhttp grammar (valid, hostile knobs, byte mutations, truncations), a "
+        "HTTP/x.y; pairs/triples of requests where the first leaves state behind (Expect: 100-continue without body, HEAD, "
+        "trailers, obs-fold, 300 headers, 9 KiB header, identity) and the second is valid or must be rejected; chunk sizes and "
+        "Content-Lengths around 2**63 / 2**64; a quarter of the enumerated streams also byte-at-a-time; then random pipelines from the refhttp grammar (valid, hostile knobs, byte mutations, truncations), a "
         "third of them delivered in random segments.  Every request is followed by a pipelined marker request.  A case is "
         "distinct by its byte stream; non-trivial = the reference found a complete request or a decided rejection.")
 ASSUMPTIONS = ["trusted base: vf/engines/refhttp.py (strict/lenient RFC 9112 reader with hand-written self-test vectors) and h11 0.16",
@@ -49,7 +51,7 @@ ASSUMPTIONS = ["trusted base: vf/engines/refhttp.py (strict/lenient RFC 9112 rea
                "netsim.SimTransport stops delivering after the server's loseConnection(), as TCP does"]
 SHARDS = {"quick": 4, "thorough": 16}
 FLOORS = {"must_reject_checked": 1000, "must_accept_checked": 500, "safety_bodies_compared": 1000, "h11_agreements": 300,
-          "dontcare_accepted": 50, "dontcare_rejected": 50, "incomplete_checked": 20}
+          "dontcare_accepted": 50, "dontcare_rejected": 50, "incomplete_checked": 20, "leftover_state_streams": 100, "enumerated_bytewise": 2000}
 READY = True
 
 NEXT = b"GET /next HTTP/1.1\r\nHost: h\r\n\r\n"
@@ -366,6 +368,35 @@ def enumerated():
             yield first + blank + second + NEXT, "blank-line-between"
             yield first + blank + second + third + NEXT, "blank-line-between"
             yield first + blank + second + blank + third + NEXT, "blank-line-between"
+    # state left over from an earlier request on the same connection must not leak into the next one's framing
+    hdrs300 = b"".join(b"X-%d: v\r\n" % i for i in range(300))
+    big = b"X-Big: " + b"b" * 9000 + b"\r\n"
+    firsts = [
+        (b"POST /r0 HTTP/1.1\r\nHost: h\r\nExpect: 100-continue\r\nContent-Length: 0\r\n\r\n", "expect-no-body"),
+        (b"POST /r0 HTTP/1.1\r\nHost: h\r\nExpect: 100-continue\r\nTransfer-Encoding: chunked\r\n\r\n0\r\n\r\n", "expect-empty-chunked"),
+        (b"PUT /r0 HTTP/1.1\r\nHost: h\r\nExpect: 100-continue\r\n\r\n", "expect-no-framing"),
+        (b"HEAD /r0 HTTP/1.1\r\nHost: h\r\n\r\n", "head"),
+        (b"POST /r0 HTTP/1.1\r\nHost: h\r\nTransfer-Encoding: chunked\r\n\r\n5;x=y\r\nhello\r\n0\r\nT: v\r\nU: w\r\n\r\n", "chunked-trailers"),
+        (b"POST /r0 HTTP/1.1\r\nHost: h\r\nContent-Length: 5\r\n\r\nhello", "cl"),
+        (b"GET /r0 HTTP/1.1\r\nHost: h\r\nX-F: a\r\n b\r\n\r\n", "obs-fold"),
+        (b"GET /r0 HTTP/1.1\r\nHost: h\r\n" + hdrs300 + b"\r\n", "300-headers"),
+        (b"GET /r0 HTTP/1.1\r\nHost: h\r\n" + big + b"\r\n", "9k-header"),
+        (b"POST /r0 HTTP/1.1\r\nHost: h\r\nTransfer-Encoding: identity\r\nContent-Length: 5\r\n\r\nhello", "te-identity"),
+    ]
+    seconds = [
+        b"GET /r1 HTTP/1.1\r\nHost: h\r\n\r\n",
+        b"POST /r1 HTTP/1.1\r\nHost: h\r\nContent-Length: 5\r\n\r\nhello",
+        b"POST /r1 HTTP/1.1\r\nHost: h\r\nTransfer-Encoding: chunked\r\n\r\n" + chunked5,
+        b"GET /r1 HTTP/1.1\r\nHost: h\r\n" + hdrs300 + b"\r\n",
+        b"GET /r1 HTTP/1.1\r\nHost: h\r\n" + big + b"\r\n",
+        b"POST /r1 HTTP/1.1\r\nHost: h\r\nContent-Length: +5\r\n\r\nhello",
+        b"POST /r1 HTTP/1.1\r\nHost: h\r\nContent-Length: 5\r\nTransfer-Encoding: chunked\r\n\r\n" + chunked5,
+        b"POST /r1 HTTP/1.1\r\nHost: h\r\nExpect: 100-continue\r\nContent-Length: 5\r\n\r\nhello",
+    ]
+    for f, fname in firsts:
+        for sec in seconds:
+            yield f + sec + NEXT, "leftover-state"
+            yield f + f.replace(b"/r0", b"/r1") + sec.replace(b"/r1", b"/r2") + NEXT, "leftover-state"
     for x in range(10):
         for y in range(10):
             yield b"GET /r0 HTTP/%d.%d\r\nHost: h\r\n\r\n" % (x, y) + NEXT, "version"
@@ -381,7 +412,12 @@ def run(ctx):
             continue
         ctx.count("enumerated")
         ctx.seen("enumerated_kinds", desc)
+        if desc == "leftover-state":
+            ctx.count("leftover_state_streams")
         check_stream(ctx, stream, [desc])
+        if k % 4 == 1 and len(stream) <= 400:  # the same safety/zones must hold when every byte arrives alone
+            ctx.count("enumerated_bytewise")
+            check_stream(ctx, stream, [desc, "bytewise"], [stream[j:j + 1] for j in range(len(stream))])
     ctx.exhaustive = False
     for i in ctx.cases(12000, 600000):
         rng = ctx.case_rng(i)
